@@ -106,7 +106,38 @@ def _three(rng, maxmsg: int, per_shape: int):
     return out
 
 
+def _reserved_syntax(res: C.Result, deep: bool):
+    """the regular expression of handle_reserve: Model/ResRegex.lean (pattern + backtracking matcher), rangeSearch (the
+    scan the theorems use) and expandEntry/regReserved against the real `re` and the real handle_reserve"""
+    rng = C.rng_for(res.seed, "C12rx" + ("deep" if deep else ""))
+    entries = R.rx_entries(rng, 20000 if deep else 3000)
+    recs, lines, meta = R.rx_run(entries)
+    ex = res.extra
+    ex["reserved_syntax"] = meta
+    # a differently spelled pattern is not a difference by itself (informational, `reserved_syntax` above): what counts is
+    # that the real `re.search(<pattern of the source>)` and the model agree on every generated entry
+    out = C.parse_driver(C.run_driver("registry", lines))
+    for r in recs + [{"cid": "cls_space", "entry": "\\s over every code point"}, {"cid": "cls_digit", "entry": "[0-9] over every code point"}]:
+        o = out.get(r["cid"])
+        if o is None:
+            raise C.MachineryError(f"driver gave no answer for case {r['cid']}")
+        res.traces_validated += 1
+        if "impl" in r:
+            kind = ("ok" if r["impl"]["ids"] else "ok-empty") if r["impl"]["ok"] else r["impl"]["cls"]
+            _count(ex.setdefault("reserved_entry_outcomes", {}), kind)
+            _count(ex.setdefault("reserved_entry_regex", {}), "not-a-string" if "re" not in r else ("no-match" if r["re"] is None else "match"))
+            res.note_case(("rx", repr(r["entry"])), nontrivial=True)
+            if r.get("ids_mismatch"):
+                res.corr_diffs.append({"name": "corr:M7/message_ids_vs_message_defs", "diff": "reserved placeholders", "case": {"rx": True, "entries": [r["entry"]]}})
+        for d in o["corr"]:
+            res.corr_diffs.append({"name": "corr:M7/reserved-regex" if d.startswith(("diff regex", "diff class")) else "corr:M7/reserved-entry",
+                                   "diff": d[:400], "case": {"rx": True, "entries": [r["entry"]], "impl": r.get("impl"), "re": r.get("re")}})
+    for r in recs[:4]:
+        res.sample({"reserved_entry": r["entry"], "re.search": r.get("re"), "handle_reserve": r["impl"]}, cap=10)
+
+
 def run(res: C.Result, deep: bool):
+    _reserved_syntax(res, deep)
     cases = build_cases(res, deep)
     # corpus first
     cdir = C.CORPUS / PROP
@@ -114,7 +145,11 @@ def run(res: C.Result, deep: bool):
     if cdir.exists():
         for p in sorted(cdir.glob("*.case")):
             corpus.append((f"c{len(corpus)}", json.loads(p.read_text())))
-    res.rule = ("corpus; directed (every range boundary x core on/off x file named core_defs.yaml or not; conflicts with the "
+    res.rule = ("reserved-entry syntax: 3000 (thorough: 20000) single entries — every blank of \\s x both separators, leading zeros, junk "
+                "around, near misses (other dashes, `To`, `t o`, non-ASCII digits, zero-width characters), random strings over the "
+                "pattern's alphabet, ints, bools, floats, lists — through the real re.search with the pattern read from the source and the "
+                "real handle_reserve, against the regex model, the scan and expandEntry; \\s and [0-9] over all 1,112,064 code points; "
+                "corpus; directed (every range boundary x core on/off x file named core_defs.yaml or not; conflicts with the "
                 "shipped core definitions; one file through five path spellings); every import relation (self imports, cycles, "
                 "diamonds, repeats) on <= 2 files x every planted conflict pair (36 name-kind pairs, 49 message-id pairs over "
                 "message/signal/reserved-int/reserved-range writings, module/host id and name, metadata) x every pair of "
@@ -134,6 +169,11 @@ def run(res: C.Result, deep: bool):
 
 def replay(body: Dict[str, Any]) -> int:
     rec = body.get("case") or (body.get("first_corr_diff") or {}).get("case")
+    if isinstance(rec, dict) and rec.get("rx"):
+        recs, lines, meta = R.rx_run(rec["entries"])
+        out = C.run_driver("registry", lines)
+        print(json.dumps(meta)); print(json.dumps(recs, default=repr)); print("\n".join(out))
+        return 1 if any("CORR diff" in o for o in out) else 0
     case = rec.get("case") if isinstance(rec, dict) and "case" in rec else rec
     if not case or "files" not in case:
         print("nothing replayable in this file")
